@@ -23,4 +23,13 @@ PROPS = {
         'crosscheck_functions': [],
         'ground': ['c14'],
     },
+    'C04': {
+        'level': 'proof',
+        'functions': [
+            'pyx12.x12file.X12Base._parse_segment',
+            'pyx12.x12file.X12Reader._parse_segment',
+            'pyx12.x12file.X12Reader.cleanup',
+        ],
+        'crosscheck_functions': [],
+    },
 }
